@@ -28,9 +28,9 @@ def run(ctx):
 
     tshapes = R.torus_shapes()
     if quick:
-        core = [[2], [3], [4], [5], [6], [7], [2, 2], [3, 3], [4, 4], [2, 3, 2], [2, 2, 2, 2, 2]]
-        big = [s for s in tshapes if 30 <= __import__("math").prod(s) <= 64]
-        tshapes = core + rng.sample([s for s in tshapes if s not in core and __import__("math").prod(s) < 30], 10) + rng.sample(big, 2)
+        core = [[2], [3], [4], [5], [6], [7], [2, 2], [3, 3], [2, 3, 2], [2, 2, 2, 2, 2]]
+        big = [s for s in tshapes if 30 < __import__("math").prod(s) <= 64]
+        tshapes = core + rng.sample([s for s in tshapes if s not in core and __import__("math").prod(s) <= 30], 6) + rng.sample(big, 1)
     for i, dims in enumerate(tshapes):
         p = R.Plat("torus-" + "x".join(map(str, dims)))
         p.cluster("T", "torus", lim=rng.choice([0, 1]), dims=dims, **flags())
@@ -39,14 +39,14 @@ def run(ctx):
     fshapes = R.fattree_shapes()
     fcore = [dict(lv=1, down=[2], up=[1], cnt=[1]), dict(lv=2, down=[4, 4], up=[1, 2], cnt=[1, 2]),
              dict(lv=3, down=[2, 2, 2], up=[2, 2, 2], cnt=[1, 1, 2])]
-    for sh in fcore + rng.sample(fshapes, 9 if quick else 250):
+    for sh in fcore + rng.sample(fshapes, 5 if quick else 250):
         p = R.Plat("fattree-%d-%s-%s-%s" % (sh["lv"], sh["down"], sh["up"], sh["cnt"]))
         p.cluster("F", "fattree", lim=rng.choice([0, 1, 2]), **sh, **flags())
         p.meta = {"kind": "fattree", **sh}
         plats.append(p)
     dshapes = R.dragonfly_shapes()
     if quick:
-        dshapes = [dict(g=2, c=2, b=2, n=2), dict(g=3, c=2, b=3, n=1)] + rng.sample(dshapes, 8)
+        dshapes = [dict(g=2, c=2, b=2, n=2), dict(g=3, c=2, b=3, n=1)] + rng.sample(dshapes, 5)
     for sh in dshapes:
         p = R.Plat("dragonfly-%(g)dx%(c)dx%(b)dx%(n)d" % sh)
         p.cluster("D", "dragonfly", lim=rng.choice([0, 1, 2]), gl=rng.randint(1, 2), cl=rng.randint(1, 2),
@@ -64,14 +64,14 @@ def run(ctx):
                     k += 1
                     plats.append(R.xml_cluster("c%d" % k, rng.randint(2, 5), rng.randint(1, 6), bb, loop, lim, policy))
     # Star zones built through the C++ API (irregular up / down routes, loopbacks, limiters, backbone)
-    for i in range(6 if quick else 60):
+    for i in range(4 if quick else 60):
         r2 = random.Random("C26/star/%d/%s/%d" % (ctx.seed, ctx.tier, i))
         p = R.Plat("star%d" % i)
         R.leaf_zone(p, r2, R.Namer(), "_world_", "star", r2.randint(2, 6))
         p.pairs = p.all_pairs()
         p.meta = {"kind": "star"}
         plats.append(p)
-    R.run_check(ctx, plats, chunk=6 if quick else 12, mc_pairs=600 if quick else 5000,
+    R.run_check(ctx, plats, chunk=5 if quick else 10, mc_pairs=120 if quick else 1500,
                 nontrivial=lambda plat, s, d: s != d,
                 rule="shapes = torus / fat-tree / dragonfly shapes (all torus and dragonfly shapes in the thorough tier, a fixed "
                      "core + a seeded sample otherwise) x random flags (loopback, limiter, split-duplex), 16 XML <cluster> "
